@@ -107,6 +107,15 @@ class Normalizer:
             if tag(x) == "agg" and i < len(x[2]) and x[2][i] is not None:
                 return x[2][i]
             return mk(*a)
+        if tg == "call" and self.opcomm and len(a) == 3:
+            # sign queries: TwoFloat::is_sign_positive(x) is the sign bit of x.hi (checked by C06/R12d);
+            # is_sign_negative is its complement
+            if a[1] == "TwoFloat::is_sign_positive":
+                return mk("call", "core::f64::<impl f64>::is_sign_positive", self._node(("field", a[2], 0)))
+            if a[1] == "TwoFloat::is_sign_negative":
+                return mk("not", mk("call", "core::f64::<impl f64>::is_sign_positive", self._node(("field", a[2], 0))))
+            if a[1] == "core::f64::<impl f64>::is_sign_negative":
+                return mk("not", mk("call", "core::f64::<impl f64>::is_sign_positive", a[2]))
         if tg == "call":
             kind = self.eft.get(a[1])
             if kind is not None and len(a) == 4:
@@ -117,9 +126,8 @@ class Normalizer:
                 x, y = self._sorted2(a[2], a[3])
                 return mk("call", "opc:" + a[1].split(":")[1], x, y)
             return mk(*a)
-        if tg == "agg":
-            # negation of both words of a TwoFloat aggregate stays explicit (word-wise)
-            return mk(*a)
+        if tg == "eft_err":
+            return self._eft_err(a[1], a[2], a[3])
         return mk(*a)
 
     def _sorted2(self, x, y):
@@ -172,6 +180,37 @@ class Normalizer:
         p, q = self._sorted2(x, y)
         return mk("f", "add", p, q)
 
+    def _eft_err(self, kind, x, y):
+        """error term of an error-free transformation: determined by the exact value of the operation
+        (theorem), hence commutative for + and *; odd under joint negation up to the sign of zero"""
+        if kind == "sub":
+            if self.mode == "Z":
+                kind, y = "add", neg(y)
+            else:
+                return mk("eft_err", "sub", x, y)
+        if kind == "add":
+            if self.mode == "Z":
+                sx, mx = split_sign(x); sy, my = split_sign(y)
+                if digest(mx) <= digest(my):
+                    fs, a, sb, b = sx, mx, sy, my
+                else:
+                    fs, a, sb, b = sy, my, sx, mx
+                if fs:
+                    return neg(mk("eft_err", "add", a, b if sb else neg(b)))
+                return mk("eft_err", "add", a, neg(b) if sb else b)
+            p, q = self._sorted2(x, y)
+            return mk("eft_err", "add", p, q)
+        if kind == "mul":
+            sx, mx = split_sign(x); sy, my = split_sign(y)
+            a, b = self._sorted2(mx, my)
+            if self.mode == "Z":
+                r = mk("eft_err", "mul", a, b)
+                return neg(r) if sx != sy else r
+            if sx != sy:
+                return mk("eft_err", "mul-", a, b)
+            return mk("eft_err", "mul", a, b)
+        return mk("eft_err", kind, x, y)
+
     def _eft(self, kind, x, y):
         if kind == "tsn":
             if self.mode == "Z":
@@ -200,6 +239,47 @@ class Normalizer:
                 return mk("eft", "tp-", a, b)
             return mk("eft", "tp", a, b)
         return mk("eft", kind, x, y)
+
+def recognise_eft(t):
+    """Replace the error terms of inlined error-free transformations by canonical nodes:
+         2Sum   (a - (s - b)) + (b - (s - (s - b))),  s = a + b      ->  ("eft_err", "add", a, b)
+         2Sub   (a - (s + b)) - (b + (s - (s + b))),  s = a - b      ->  ("eft_err", "sub", a, b)
+         2Prod  fma(a, b, -(a * b))                                   ->  ("eft_err", "mul", a, b)
+       The patterns are matched on raw IEEE-operation terms (either operand order of the commutative
+       operations), so the identities of C10 do not depend on where function boundaries are drawn."""
+    def is_f(n, op):
+        return tag(n) == "f" and n[1] == op
+    def s_add(s, a, b):
+        return is_f(s, "add") and ((s[2] is a and s[3] is b) or (s[2] is b and s[3] is a))
+    def f(k):
+        n = mk(*k)
+        if k[0] != "f":
+            return n
+        if k[1] == "add":
+            for da, db in ((k[2], k[3]), (k[3], k[2])):
+                if is_f(da, "sub") and is_f(db, "sub"):
+                    a, aa = da[2], da[3]; b, bb = db[2], db[3]
+                    if is_f(aa, "sub") and aa[3] is b and is_f(bb, "sub") and bb[2] is aa[2] and bb[3] is aa and s_add(aa[2], a, b):
+                        return mk("eft_err", "add", a, b)
+        if k[1] == "sub":
+            da, db = k[2], k[3]
+            if is_f(da, "sub") and is_f(db, "add"):
+                a, aa = da[2], da[3]
+                for b, bb in ((db[2], db[3]), (db[3], db[2])):
+                    if is_f(aa, "add") and is_f(bb, "sub") and bb[3] is aa:
+                        s = bb[2]
+                        if ((aa[2] is s and aa[3] is b) or (aa[3] is s and aa[2] is b)) and is_f(s, "sub") and s[2] is a and s[3] is b:
+                            return mk("eft_err", "sub", a, b)
+        if k[1] == "fma":
+            a, b, c = k[2], k[3], k[4]
+            if is_f(c, "neg") and is_f(c[2], "mul") and ((c[2][2] is a and c[2][3] is b) or (c[2][2] is b and c[2][3] is a)):
+                return mk("eft_err", "mul", a, b)
+        return n
+    if type(t) is tuple:
+        return tuple(recognise_eft(x) for x in t)
+    if type(t) is not Node:
+        return t
+    return rebuild(t, f, {})
 
 def strip_provider(t):
     """drop the fma provider annotation"""
